@@ -530,8 +530,16 @@ def base_cases(rng, n_any, n_valid, tiny_p=0.5, rich_every=0):
             yield d, False
             continue
         yield gen_desc(rng, maxrows=rng.choice([1, 2, 3]), tiny=rng.random() < tiny_p), False
-    for _ in range(n_valid):
-        yield valid_ts_desc(rng), True
+    for k in range(n_valid):
+        d = valid_ts_desc(rng)
+        if k < 4:       # the first valid bases have >= 2 edges and a mutation with a parent mutation
+            for _ in range(60):
+                m = d["tables"]["mutations"]
+                par = [int.from_bytes(bytes.fromhex(m["cols"]["parent"])[4 * j:4 * j + 4], "little", signed=True) for j in range(m["n"])]
+                if d["tables"]["edges"]["n"] >= 2 and any(p >= 0 for p in par):
+                    break
+                d = valid_ts_desc(rng)
+        yield d, True
 
 
 READ_PATHS = [(False, False), (False, False), (True, False), (False, True), (False, False), (True, True)]
@@ -599,6 +607,7 @@ class CorruptFamily(Family):
         d = {"api": e["api"], "mode": e["mode"], "skip": "%d%d" % (e["skip_tables"], e["skip_ref"])}
         for k, v in (obs.get("hist") or {}).items():
             d["outcome:" + k] = v
+        d["mutated_files_per_base_file"] = obs.get("n", obs.get("ns"))
         return d
 
     def shrink(self, case):
@@ -863,6 +872,31 @@ class Multi(CorruptFamily):
         for j, it in enumerate(items):
             for t in same.get(it["type"], []):
                 eds.append([field(64 + 64 * j, 1, t)])
+        # coherent GROUP rewrites of array_len (+1 / -1 / +2 entries, every member of the group alike): both index
+        # arrays; every per-row column and offset column of a table; a ragged data column alone and with
+        # its offsets.  Packing often stays valid because the extra / missing entry lies in the alignment
+        # padding; the table layer's cross-checks (row counts, index length = number of edges, last
+        # offset = data length) must then reject.
+        by_key = {it["key"].decode("latin1"): (j, it) for j, it in enumerate(items)}
+        groups = [[k for k in by_key if k.startswith("indexes/")]]
+        for tname in c05.TABLE_ORDER:
+            fixed, ragged, _ = c05.TABLES[tname]
+            groups.append([tname + "/" + c for c, _ in fixed if tname + "/" + c in by_key]
+                          + [tname + "/" + c + "_offset" for c, _ in ragged if tname + "/" + c + "_offset" in by_key])
+            for c, _ in ragged:
+                if tname + "/" + c in by_key:
+                    groups.append([tname + "/" + c])
+        for g in groups:
+            if not g:
+                continue
+            for dl in (1, -1, 2):
+                ed = []
+                for k in g:
+                    j, it = by_key[k]
+                    if it["array_len"] + dl >= 0:
+                        ed.append(field(64 + 64 * j + 32, 8, it["array_len"] + dl))
+                if len(ed) == len(g):
+                    eds.append(ed)
         # all fixed-width columns of one table wrapped consistently (k * 2^62 more rows)
         for tname in ("nodes", "edges", "sites", "mutations", "migrations", "individuals", "populations",
                       "provenances"):
@@ -1043,6 +1077,26 @@ class Data(CorruptFamily):
                 for j in range(E):
                     for v in {(vals[j] + 1) % E, vals[0], vals[-1], vals[(j + 1) % E]}:
                         if v != vals[j]:
+                            eds.append([(a0 + 4 * j, int(v).to_bytes(4, "little", signed=True))])
+        # id columns: one cell set to a boundary-equal value: its own row index, the number of rows of
+        # its own / of every other table, that minus one, -1, -2
+        nrows = {}
+        for it in lay.p["items"]:
+            k = it["key"].decode("latin1")
+            if k.endswith("_offset") and it["array_len"] >= 1:
+                nrows.setdefault(k.split("/")[0], it["array_len"] - 1)
+        id_cols = ["nodes/population", "nodes/individual", "edges/parent", "edges/child", "mutations/site",
+                   "mutations/node", "mutations/parent", "migrations/node", "migrations/source", "migrations/dest",
+                   "individuals/parents"]
+        for it in lay.p["items"]:
+            k = it["key"].decode("latin1")
+            if k in id_cols and it["type"] == 4 and it["array_len"]:
+                a0, E = it["array_start"], it["array_len"]
+                vals = [int.from_bytes(base[a0 + 4 * j:a0 + 4 * j + 4], "little", signed=True) for j in range(E)]
+                cands = {-1, -2} | set(nrows.values()) | {v - 1 for v in nrows.values()}
+                for j in range(min(E, 6)):
+                    for v in sorted(cands | {j, j + 1, j - 1}):
+                        if v != vals[j] and -2 ** 31 <= v < 2 ** 31:
                             eds.append([(a0 + 4 * j, int(v).to_bytes(4, "little", signed=True))])
         # sequence_length: special doubles (NaN, -NaN, +-inf, +-0, negative, denormal)
         for it in lay.p["items"]:
